@@ -716,6 +716,8 @@ from mlmverif.selfcheck import B, OK  # noqa: E402
 
 _F = 'utils/iter_utils.py'
 VARIANTS = [
+    OK('pending-row-counter-int64', 'utils/iter_utils.py',
+       "  batch_sizes = np.zeros(num_columns, dtype=int)\n  exhausted = False", "  batch_sizes = np.zeros(num_columns, dtype=np.int64)\n  exhausted = False"),
     B('pending-row-counter-sixteen-bits', 'utils/iter_utils.py',
       "  batch_sizes = np.zeros(num_columns, dtype=int)\n  exhausted = False", "  batch_sizes = np.zeros(num_columns, dtype=np.int16)\n  exhausted = False", 'R-C19-13'),
     B('target-size-capped-at-a-queue-constant', 'utils/iter_utils.py',
